@@ -83,6 +83,13 @@ func CheckC07(c *Ctx) int {
 	for i, bf := range buildFiles(fdir, c.Pick(24, 240), c.Seed+77, false) {
 		d, err := DecodeFile(bf.Path)
 		stats, serr := TopBucketStats(bf.Path)
+		cliStats, cliOK := CLIStats(bf.Path)
+		if !cliOK {
+			cliStats = map[string]int{} // the command failed or printed something else: every field is a mismatch
+			for _, k := range []string{"buckets", "branchPageN", "branchOverflowN", "leafPageN", "leafOverflowN", "keyN", "depth", "branchAlloc", "branchInuse", "leafAlloc", "leafInuse", "bucketN", "inlineBucketN", "inlineBucketInuse"} {
+				cliStats[k] = -2
+			}
+		}
 		os.Remove(bf.Path)
 		if err != nil {
 			continue
@@ -111,7 +118,7 @@ func CheckC07(c *Ctx) int {
 			bk = []BucketShape{}
 		}
 		pagesSeen += len(pg)
-		shapes = append(shapes, Ev{"ev": "Shape", "name": fmt.Sprintf("shape-%d-ps%d-%s", i, bf.Opts.PageSize, bf.Profile.Name), "ps": d.PageSize, "pages": pg, "buckets": bk, "stats": stats})
+		shapes = append(shapes, Ev{"ev": "Shape", "name": fmt.Sprintf("shape-%d-ps%d-%s", i, bf.Opts.PageSize, bf.Profile.Name), "ps": d.PageSize, "pages": pg, "buckets": bk, "stats": stats, "cli": true, "cliStats": cliStats})
 	}
 	c.evalFormat(shapes, 8, "shape")
 	c.Cov["tree_shapes_checked"] = len(shapes)
